@@ -26,7 +26,8 @@ RECURSIVE Bytes(_)
 Bytes(p) == IF p = 0 THEN 0 ELSE W(s[p]) + Bytes(p - 1)
 
 \* control pictures and display cells (unicode-width, CJK flavour: checked by the runner at start)
-Picture(c) == IF c = 10 THEN 9226 ELSE IF c = 13 THEN 9229 ELSE IF c = 9 THEN 9225 ELSE c
+\* every C0 control character and DEL is shown as its picture (U+2400 + c, U+2421 for DEL); the space is kept
+Picture(c) == IF c < 32 THEN 9216 + c ELSE IF c = 127 THEN 9249 ELSE c
 Cell(c) == IF c = 20013 THEN 2 ELSE 1
 RECURSIVE Cells(_, _)
 Cells(i, j) == IF j <= i THEN 0 ELSE Cell(s[j]) + Cells(i, j - 1)     \* cells of characters i+1 .. j
@@ -57,13 +58,17 @@ SpanLayout(a, b) ==
       cnt == l - f + 1
   IN IF f = l
      THEN [nums |-> <<Num(f)>>, dots |-> FALSE,
-           marks |-> <<<<IF a < b THEN "^" ELSE "", Cells(L[f][1], a), Cells(a, b)>>>>]
-     ELSE [nums |-> <<Num(f)>> \o (IF cnt >= 3 THEN <<Num(f + 1)>> ELSE <<>>) \o (IF cnt = 5 THEN <<Num(f + 2)>> ELSE <<>>)
-                    \o (IF cnt >= 4 THEN <<Num(l - 1)>> ELSE <<>>) \o <<Num(l)>>,
+           marks |-> <<<<IF a < b THEN "^" ELSE "", Cells(L[f][1], a), Cells(a, b)>>>>,
+           hl |-> <<Pict(a, b)>>]
+     ELSE LET inner == (IF cnt >= 3 THEN <<Num(f + 1)>> ELSE <<>>) \o (IF cnt = 5 THEN <<Num(f + 2)>> ELSE <<>>)
+                       \o (IF cnt >= 4 THEN <<Num(l - 1)>> ELSE <<>>) IN
+          [nums |-> <<Num(f)>> \o inner \o <<Num(l)>>,
            dots |-> cnt >= 6,
-           marks |-> <<<<"v", Cells(L[f][1], a), 1>>, <<"^", Sat(Cells(L[l][1], b) - 1), 1>>>>]
+           marks |-> <<<<"v", Cells(L[f][1], a), 1>>, <<"^", Sat(Cells(L[l][1], b) - 1), 1>>>>,
+           \* what a custom span formatter is handed, one piece per numbered line: the part of the span on that line
+           hl |-> <<Pict(a, L[f][2])>> \o [k \in 1..Len(inner) |-> inner[k][2]] \o <<Pict(L[l][1], b)>>]
 PosLayout(p) == LET i == LineOfOffset(p) IN
-  [nums |-> <<Num(i)>>, dots |-> FALSE, marks |-> <<<<"^", Cells(L[i][1], p), 1>>>>]
+  [nums |-> <<Num(i)>>, dots |-> FALSE, marks |-> <<<<"^", Cells(L[i][1], p), 1>>>>, hl |-> <<>>]
 
 \* the property's statements on the specification (ideal reading only)
 FirstAndLastHoldTheSpan == Dev("display_prev_line") \/ \A a \in 0..N : \A b \in a..N :
